@@ -96,6 +96,38 @@ def nj(ctx, reason):
 #   SingleSetup(data, fs)                    SingleSetup.mpe(name, sel_freq, order, rtol)
 # Required: (a) the same answer as the call with keywords (bit-equal: same function, same values), (b) the oracle of the property on it
 # (applied to the positional result itself, or to the keyword result it is bit-equal to).
+
+def _same_poles_any_order(a, b, tol=1e-9):
+    """(fn, xi, phi, lam) of two calls describe the same poles: the property fixes neither the order of the poles of one model order nor the
+    last bits (the branch with the extra outputs may use another eigen-solver route), so the rows are matched by continuous-time pole."""
+    try:
+        fa, xa, pa, la = [np.asarray(x) for x in a]
+        fb, xb, pb, lb = [np.asarray(x) for x in b]
+        if fa.shape != fb.shape or pa.shape != pb.shape or la.shape != lb.shape:
+            return False
+        used = set()
+        for i in range(len(la)):
+            if la[i] != la[i]:
+                cands = [j for j in range(len(lb)) if j not in used and lb[j] != lb[j]]
+            else:
+                cands = [j for j in range(len(lb)) if j not in used and lb[j] == lb[j] and abs(lb[j] - la[i]) <= tol * max(1.0, abs(la[i]))]
+            hit = None
+            for j in cands:
+                same_f = (fa[i] != fa[i] and fb[j] != fb[j]) or abs(fa[i] - fb[j]) <= tol * max(1.0, abs(fa[i]))
+                same_x = (xa[i] != xa[i] and xb[j] != xb[j]) or abs(xa[i] - xb[j]) <= tol
+                va, vb = pa[i] if pa.shape[0] == len(la) else pa[:, i], pb[j] if pb.shape[0] == len(lb) else pb[:, j]
+                same_p = bool(np.all((np.abs(va - vb) <= 1e-7) | ((va != va) & (vb != vb))))
+                if same_f and same_x and same_p:
+                    hit = j
+                    break
+            if hit is None:
+                return False
+            used.add(hit)
+        return True
+    except Exception:
+        return False
+
+
 def same_nested(a, b):
     if a is None or b is None:
         return a is None and b is None
@@ -566,7 +598,7 @@ def stage_ac2mp(ctx, cases):
             kwo = ssi.ac2mp(A, C, dt, calc_unc=True)
             okp, pso = pos_call(ctx, "ac2mp", form, lambda: ssi.ac2mp(A, C, dt, True), case)
             if okp and pos_same(ctx, "ac2mp", form, tuple(kwo), tuple(pso), case):
-                if not (same_nested(tuple(pso[:4]), (fn, xi, phi, lam_c)) and pso[4] is not None and pso[5] is not None and pso[6] is not None
+                if not (_same_poles_any_order(pso[:4], (fn, xi, phi, lam_c)) and pso[4] is not None and pso[5] is not None and pso[6] is not None
                         and np.asarray(pso[4]).shape == (len(pairs),) and all(np.min(np.abs(np.asarray(pso[4]) - complex(z))) <= 1e-8 for z, _ in pairs)):
                     ctx.fail("oracle", "%s: fn, xi, shapes, poles must be those of ac2mp(A, C, dt) and the discrete eigenvalues / eigenvectors must be returned"
                              % form, dict(case, positional=form), key="C01:ac2mp:positional-call")
